@@ -40,16 +40,26 @@ func out(s string) {
 		// scheduler has released it, otherwise the event order would depend on the Go runtime
 		simrt.Yield("log")
 		// the scratch directory's name differs from process to process: keep it out of the event log
-		s = strings.ReplaceAll(s, w.Root, "$ROOT")
+		s = hideRoot(s, w.Root)
 		w.AddLog(s)
 		w.Emit(simrt.Event{Kind: simrt.EvLog, Note: s})
 	}
 }
 
+// hideRoot replaces the scratch directory's (random) name, in its absolute spelling and - for databases opened with a
+// relative base path - as a bare directory name.
+func hideRoot(s, root string) string {
+	s = strings.ReplaceAll(s, root, "$ROOT")
+	if i := strings.LastIndexByte(root, '/'); i >= 0 && i+1 < len(root) {
+		s = strings.ReplaceAll(s, root[i+1:], "$ROOT")
+	}
+	return s
+}
+
 func stop(s string) {
 	if w := simrt.W(); w != nil {
 		simrt.Yield("log")
-		s = strings.ReplaceAll(s, w.Root, "$ROOT")
+		s = hideRoot(s, w.Root)
 		w.ProcessStopped(s)
 		panic(simrt.StopPanic{Msg: s})
 	}
